@@ -22,7 +22,7 @@
 #define NCYC 3
 #endif
 #ifndef SHAPES
-#define SHAPES 0x1ff
+#define SHAPES 0x3ff
 #endif
 
 using namespace hk;
@@ -48,7 +48,8 @@ GraphBuilder build_for(int shape) {
         case 5: return build_graph<Top<TSD<Int, TSS<Int>>>>();
         case 6: return build_graph<Top<BundleDict>>();
         case 7: return build_graph<Top<TSW<Int, 2, 1>>>();
-        default: return build_graph<Top<TSL<TS<Int>>>>();
+        case 8: return build_graph<Top<TSL<TS<Int>>>>();
+        default: return build_graph<Top<TSW<Int, 3, 2>>>();
     }
 }
 }  // namespace
@@ -66,7 +67,7 @@ extern "C" int harness_main() {
     std::vector<std::optional<Value>> in;
     bool dedup[NCYC] = {};
     int ticks = 0, gaps = 0;
-    bool gap_then_tick = false;
+    bool gap_then_tick = false, below_min_recorded = false, unrecorded_tick = false;
     {
         TSOutput A{schema}, B{schema};  // B: shadow copy, only used to classify the known input class R1
         TSInput inA{TSInputBuilderFactory::checked_builder_for(*schema, TSEndpointSchema::peered(schema))};
@@ -89,6 +90,9 @@ extern "C" int harness_main() {
                     dedup[c] = cc.dedup;
                     in.emplace_back(std::move(d));
                     recorded = true;
+                    if (schema->kind == TSTypeKind::TSW && !ia.valid()) below_min_recorded = true;
+                } else {
+                    unrecorded_tick = true;
                 }
             }
             if (recorded) { ticks++; if (gaps > 0) gap_then_tick = true; }
@@ -124,6 +128,9 @@ extern "C" int harness_main() {
         }
     }
     for (std::size_t c = NCYC; c < out.size(); c++) ok_cycles &= !out[c].has_value();
+    // every tick of these histories is a real tick (no invalidation, no scheduling-only notification): the recorder's
+    // observability filter must keep all of them, valid or not (a tick window emits before it reaches min_period)
+    verif_assert(!unrecorded_tick, "C20.graph_every_tick_is_recorded");
     verif_assert(ok_cycles, "C20.graph_same_cycles");
     verif_assert(ok_delta, "C20.graph_same_delta");
     verif_assert(ok_known, "C20.graph_empty_tick_reproduced");
@@ -134,6 +141,7 @@ extern "C" int harness_main() {
     if (g_child_only) verif_reach("child_only_tick");
     if (g_empty_tick) verif_reach("empty_structural_tick");
     if (saw_dedup) verif_reach("class_empty_delta_on_valid_collection");
+    if (below_min_recorded && ticks >= 3) verif_reach("window_push_below_min_period_recorded");
     verif_log("shape", shape);
     verif_log("ticks", ticks);
     verif_reach("end");
